@@ -192,6 +192,8 @@ def _absent_queries(rng, names, k):
         elif names and r < 0.6:
             base = rng.choice(names)
             q = base + b'x' if rng.random() < 0.5 else base[:-1]
+            if not _is_utf8(q):
+                q = None
         if q is None:
             q = _name(rng)
         if q not in present and b'\0' not in q:
@@ -257,10 +259,12 @@ def gen(ctx):
     for nm in hn:
         cases.append(('hashfn', [nm]))
     # ---- (b,c,d) table scenarios
-    sizes = [0, 0, 1, 1, 2, 2, 2, 3, 3] + [rng.randint(0, 12) for _ in range(110 * T)] + \
-            [rng.randint(13, 200) for _ in range(14 * T)]
-    bigs = [rng.randint(500, 2000) for _ in range(2 * T)] + [2000]
-    for n in sizes + bigs:
+    sizes = [0, 0, 1, 1, 2, 2, 2, 3, 3] + [rng.randint(0, 12) for _ in range(90 * T)] + \
+            [rng.randint(13, 120) for _ in range(8 * T)]
+    # large tables: quick = one of 400..700 symbols for every kind and one of 2000 for the symbol table only
+    bigs = [rng.randint(400, 700)] + ([rng.randint(500, 2000) for _ in range(6)] + [2000] if T > 1 else [])
+    only_symtab = [] if T > 1 else [2000]
+    for n in sizes + bigs + only_symtab:
         big = n > 200
         common, names, queries = _scenario(rng, n, big)
         xextra = rng.choice([0, 0, 4])
@@ -269,6 +273,8 @@ def gen(ctx):
         irows = [[rng.choice([0xffff, 0xfffe, 0xfffd, 0xfffc, 0, rng.randrange(65536)]), rng.randrange(65536)]
                  for _ in range(n)]
         cases.append(('symtab', common + [queries, xextra, xrows, iextra, irows]))
+        if n in only_symtab:
+            continue
         if n >= 1:
             nb = rng.choice([1, 1, 2, 3, rng.randint(1, 2 * n + 1)])
             if big:
@@ -631,10 +637,7 @@ def _eval_table(ctx, kind, a, ENUMS):
                                    ('bloom-false-positive-empty-bucket' if start < so else
                                     ('full-hash-collision' if same_full else 'bucket-collision')))
             else:
-                first = next(i for i in range(so, n) if names[i] == q)
-                grp_start = T[3][h % len(T[3])]
-                earlier_same = any((T[4][i - so] | 1) == (h | 1) for i in range(grp_start, first))
-                cls = 'present-after-equal-hash' if earlier_same else 'present'
+XX
         else:
             h = qh[j][0]
             if not p:
